@@ -377,10 +377,29 @@ async fn remote_replies(mon: &Monitor, rng: &mut Rng) {
     let phex = hex::encode(ptid);
     let paddr = sim_addr(n + 3);
     let mut prx = w.hub.register_puppet(ptid, paddr);
+    // the identifier each node has been named under in any reply of this world so far
+    let mut spelled: std::collections::HashMap<usize, String> = std::collections::HashMap::new();
     for q in 0..rng.urange(2, 8) {
         let r = rng.usize_below(n);
         let rn = &w.nodes[r];
         let _ = rn.mgr.connect_to_peer(&paddr.to_string()).await;
+        // connections come and go: the replier loses some of its connections (both ends see the close);
+        // the peers stay in its routing table and must keep their one name
+        if rng.chance(0.4) {
+            let mut dropped = 0;
+            for (pid, _k, conn, _a) in rn.mgr.verif_dht_peers().await {
+                if conn && pid != phex && dropped < 3 && rng.chance(0.35) {
+                    let _ = rn.transport.disconnect_peer(&pid).await;
+                    if let Some(&i) = w.spell.get(&pid) {
+                        let _ = w.nodes[i].transport.disconnect_peer(&rn.tid_hex).await;
+                    }
+                    dropped += 1;
+                }
+            }
+            if dropped > 0 {
+                mon.count("reply.manager.asked-after-connection-drops", 1);
+            }
+        }
         settle(Duration::from_millis(10)).await;
         // what the replier knows
         let rt = rn.mgr.verif_routing_snapshot().await;
@@ -459,6 +478,22 @@ async fn remote_replies(mon: &Monitor, rng: &mut Rng) {
         if unknown > 0 {
             mon.violation("reply.manager/names-unknown-id", ctx(json!({"unknown": unknown})));
             continue;
+        }
+        // one identifier per peer, across every reply of this world
+        for nd in &nodes {
+            if let Some(&i) = w.spell.get(&nd.peer_id) {
+                match spelled.get(&i) {
+                    Some(prev) if *prev != nd.peer_id => {
+                        let kind = |s: &str| if *s == w.nodes[i].tid_hex { "transport-id" } else if *s == hex::encode(w.nodes[i].pos) { "hex-of-dht-key" } else { "other" };
+                        mon.violation("reply.manager/peer-named-under-two-identifiers", ctx(json!({"peer": hex8(&w.nodes[i].tid), "earlier": kind(prev), "now": kind(&nd.peer_id)})));
+                        break;
+                    }
+                    Some(_) => {}
+                    None => {
+                        spelled.insert(i, nd.peer_id.clone());
+                    }
+                }
+            }
         }
         let set: BTreeSet<[u8; 32]> = named.iter().copied().collect();
         if set.len() != named.len() {
